@@ -48,12 +48,6 @@ Proof.
   intros Hts H. symmetry. apply (Z.div_unique_pos s (60 * ts) m (s - 60 * ts * m)); lia.
 Qed.
 
-(** the emsg CreateEmsgAhead builds for the splice time sigma *)
-Definition emsg_of (ts n sigma : Z) : emsg :=
-  let adDuration := u64 (ad_seconds n * ts) in
-  {| e_timescale := u32 ts; e_pt := sigma; e_dur := u32 adDuration; e_id := u32 (sigma / ts);
-     e_data := createSpliceInsertPayload (params_for sigma adDuration ts) |}.
-
 Lemma e_pt_emsg_of ts n sigma : e_pt (emsg_of ts n sigma) = sigma.
 Proof. reflexivity. Qed.
 
@@ -71,7 +65,7 @@ Lemma createEmsgAhead_eq ts n s e offs :
   end.
 Proof.
   intros (Hts & Hs & Hse & Hlen & Hmax) Hoffs.
-  unfold createEmsgAhead. rewrite Hoffs.
+  unfold createEmsgAhead. rewrite Hoffs. change minute_s with 60.
   pose proof two64_pos.
   rewrite (u64_small (60 * ts)) by lia.
   destruct (60 * ts =? 0) eqn:E0; [lia|].
@@ -467,3 +461,45 @@ Proof.
   rewrite (events_in_minute_sum ts n segs offs m Hts (fun seg => seq_dom_seg ts segs seg Hd) Hoffs Hm).
   rewrite (sumZ_all_one _ _ Hone). apply lenZ_offsets; assumption.
 Qed.
+
+(** ** The event lost at a minute boundary (finding): 8 s segments at 90 kHz, one event per minute *)
+Definition segs8 : list (Z * Z) := map (fun k => (720000 * k, 720000 * (k + 1))) (seqZ 0 10).
+
+Theorem minute_boundary_witness :
+  let ts := 90000 in
+  let sigma := sched_time ts 1 10 in            (* the splice at 70 s *)
+  let a := announce_of ts sigma in              (* announced at 63 s *)
+  seq_dom ts segs8 /\ splice_offsets 1 = Some [10] /\
+  seq_start segs8 < a <= seq_end segs8 /\
+  holder a segs8 = Some (56 * ts, 64 * ts) /\   (* the segment [56 s, 64 s) contains 63 s but starts in minute 0 *)
+  announcements ts 1 sigma segs8 = 0 /\         (* nobody announces the splice at 70 s *)
+  events ts 1 segs8 = [10 * ts].                (* the only event of the 80 s is the splice at 10 s *)
+Proof.
+  cbv zeta. split.
+  - unfold seq_dom. split; [lia|]. split; [|split; [discriminate|split; vm_compute; [discriminate|reflexivity]]].
+    vm_compute. repeat split; intros; discriminate.
+  - repeat split; vm_compute; try reflexivity; discriminate.
+Qed.
+
+(** ** Other values of scte35_<n> are rejected; signalling in the MPD; other representations *)
+Lemma reject_other n : n <> 1 -> n <> 2 -> n <> 3 ->
+  cfg_scte_status (Some n) = 400 /\ forall s e ts, createEmsgAhead s e ts n = Err scte_err.
+Proof.
+  intros H1 H2 H3. unfold cfg_scte_status, isValidSCTE35Interval, createEmsgAhead, splice_offsets.
+  destruct (n =? 1) eqn:E1; [lia|]. destruct (n =? 2) eqn:E2; [lia|]. destruct (n =? 3) eqn:E3; [lia|].
+  split; reflexivity.
+Qed.
+
+Lemma accept_123 n : n = 1 \/ n = 2 \/ n = 3 -> cfg_scte_status (Some n) = 200 /\ cfg_scte_status None = 200.
+Proof. intros [->|[->| ->]]; split; reflexivity. Qed.
+
+Lemma inband_iff isVideo scte : inband_event_stream isVideo scte = true <-> isVideo = true /\ scte <> None.
+Proof.
+  unfold inband_event_stream. destruct isVideo, scte; cbn; split; intros; try discriminate; intuition congruence.
+Qed.
+
+Lemma no_event_elsewhere scte s d ts : segment_emsg false scte s d ts = Ok None /\ segment_emsg true None s d ts = Ok None.
+Proof. split; [destruct scte|]; reflexivity. Qed.
+
+Lemma segment_emsg_video n s d ts : segment_emsg true (Some n) s d ts = createEmsgAhead s (u64 (s + d)) ts n.
+Proof. reflexivity. Qed.
